@@ -1,6 +1,7 @@
 //! implrun: executes case files against the real cstree (path dependency on /repo/cstree).
 //! One case per input line, one canonical result line per case on stdout.
 mod builder_cases;
+mod fmt_cases;
 mod green_cases;
 mod intern_cases;
 mod red_cases;
@@ -42,6 +43,7 @@ fn run_line(line: &str) -> String {
     match kind {
         "B" => builder_cases::run_case(&args),
         "H" => builder_cases::run_history(&args),
+        "D" => fmt_cases::run_d(&args),
         "G" => green_cases::run_g(&args),
         "Y" => green_cases::run_y(&args),
         "I" => intern_cases::run_case(&args),
